@@ -125,6 +125,23 @@ class Tiny:
         if isinstance(e, ast.Call):
             t = norm.text(e)
             f = norm.text(e.func)
+            if isinstance(e.func, ast.Attribute):
+                try:
+                    recv = self.ev(e.func.value)
+                except AnalysisError:
+                    recv = None
+                if isinstance(recv, Sym) and e.func.attr in recv.methods:
+                    args = [self.ev(a) for a in e.args]
+                    kwargs = {k.arg: self.ev(k.value) for k in e.keywords if k.arg is not None}
+                    self.trace.append((f"{recv.name}.{e.func.attr}", args, kwargs))
+                    return recv.methods[e.func.attr](*args, **kwargs)
+            if f == "next" and len(e.args) == 1:
+                it = self.ev(e.args[0])
+                if hasattr(it, "__next__"):
+                    try:
+                        return next(it)
+                    except StopIteration:
+                        raise TinyRaise("StopIteration")
             if f == "len" and len(e.args) == 1:
                 v = self.ev(e.args[0])
                 if isinstance(v, (Buf, list, dict, tuple, str)):
@@ -216,11 +233,21 @@ class Tiny:
                 v = self.ev(st.value)
                 t = st.targets[0]
                 if isinstance(t, (ast.Tuple, ast.List)):
+                    if isinstance(v, (list, tuple)) and len(v) == len(t.elts) and all(isinstance(x, (ast.Name, ast.Attribute)) for x in t.elts):
+                        for x, vv in zip(t.elts, v):
+                            self.env[norm.text(x)] = vv
+                        continue
                     raise AnalysisError("tiny: tuple assignment")
                 if isinstance(t, ast.Subscript) and not isinstance(t.slice, ast.Slice) and norm.text(t) not in self.env:
                     base = self.ev(t.value)
                     if isinstance(base, dict):
                         base[self.ev(t.slice)] = v
+                        continue
+                    if isinstance(base, list):
+                        try:
+                            base[self.ev(t.slice)] = v
+                        except IndexError:
+                            raise TinyRaise("IndexError")
                         continue
                 if isinstance(t, ast.Attribute) and norm.text(t) not in self.env:
                     try:
@@ -282,8 +309,36 @@ class Tiny:
                     if n > 64:
                         raise AnalysisError("tiny: loop does not terminate within 64 iterations on a small cell")
                     r = self._run(st.body, stop)
-                    if r[0] != "fall":
+                    if r[0] == "break":
+                        break
+                    if r[0] not in ("fall", "continue"):
                         return r
+            elif isinstance(st, ast.Try):
+                try:
+                    r = self._run(st.body, stop)
+                except TinyRaise as ex:
+                    r = ("raise", str(ex))
+                if r[0] == "raise":
+                    exc_name = r[1].split("(")[0].strip()
+                    handled = False
+                    for h in st.handlers:
+                        names = [] if h.type is None else [norm.text(x) or "" for x in (h.type.elts if isinstance(h.type, ast.Tuple) else [h.type])]
+                        if h.type is None or any(n_.split(".")[-1] in (exc_name.split(".")[-1], "Exception", "BaseException") for n_ in names):
+                            if h.name:
+                                self.env[h.name] = Sym(f"exception {exc_name}")
+                            r = self._run(h.body, stop)
+                            handled = True
+                            break
+                    if not handled:
+                        return r
+                elif r[0] == "fall" and st.orelse:
+                    r = self._run(st.orelse, stop)
+                if st.finalbody:
+                    r2 = self._run(st.finalbody, stop)
+                    if r2[0] != "fall":
+                        return r2
+                if r[0] != "fall":
+                    return r
             elif isinstance(st, ast.Raise):
                 return ("raise", ast.unparse(st.exc)[:60] if st.exc is not None else "")
             elif isinstance(st, ast.Return):
@@ -304,8 +359,9 @@ class Tiny:
 class Sym:
     """An opaque object with a chosen truth value (e.g. a user object defining __len__ / __bool__)."""
 
-    def __init__(self, name, truthy=True, **attrs):
+    def __init__(self, name, truthy=True, methods=None, **attrs):
         self.name, self.truthy, self.attrs = name, truthy, dict(attrs)
+        self.methods = dict(methods or {})  # method name -> python callable(*args, **kwargs)
 
     def __bool__(self):
         return self.truthy
